@@ -1,6 +1,6 @@
 """C15: Pattern.tla evaluated by TLC over (pattern, subject) pairs; every case's battery of
 string.find / match / gmatch / gsub calls is run on the real library through Lua and compared."""
-import json, os, random, re, sys, threading, time
+import json, os, random, re, sys, time
 import concurrent.futures as cf
 sys.path.insert(0, os.path.join(os.path.dirname(os.path.abspath(__file__)), "..", "lib"))
 from vlib import *
@@ -160,7 +160,183 @@ CONFIGS = {
 }
 GOENV2 = {"GOMAXPROCS": "2"}     # the driver is single-threaded work; fewer Go scheduler threads on a busy machine
 CHUNK = 400      # cases per Lua chunk
-BATCH = 24000    # cases per background job
+BATCH = 12000    # cases per round of driver runs within a shard
+NPROC = 2        # driver processes per shard
+
+
+def run_chunks(drv, bat, chunks, timeout=20000):
+    pre = bat.prelude()
+    inputs = []
+    for ci, ch in enumerate(chunks):
+        src = pre + "\n".join("C(%d, %d, %s, %s)" % (i, c[FULL], lua_str(text(c[S_])), lua_str(text(c[P_]))) for i, c in enumerate(ch)) + "\n"
+        inputs.append({"id": ci, "src": src, "timeout": timeout, "maxev": len(ch) + 10})
+    outs = run_lua_cases(drv, inputs, nproc=NPROC, env=GOENV2)
+    return [outs[ci] for ci in range(len(chunks))]
+
+
+def detailed(drv, bat, culprits):
+    """culprits: cases whose battery stopped a chunk.  Each is run alone with one emit per call, so that the call
+    that panics is identified and the calls after it still get their result.  Returns {id(case): list of parts}"""
+    res = {id(c): [None] * len(bat.of(c)) for c in culprits}
+    todo = [(c, 0) for c in culprits]
+    guard = 0
+    while todo:
+        guard += 1
+        if guard > 80:
+            raise Infra("too many re-runs of a single battery")
+        inputs = []
+        for i, (c, start) in enumerate(todo):
+            calls = bat.of(c)
+            src = PRELUDE + "local s, p = %s, %s\n" % (lua_str(text(c[S_])), lua_str(text(c[P_]))) + "".join(
+                "emit(%d, %s)\n" % (j, call_expr(calls[j])) for j in range(start, len(calls)))
+            inputs.append({"id": i, "src": src, "timeout": 10000})
+        outs = run_lua_cases(drv, inputs, nproc=NPROC, env=GOENV2)
+        nxt = []
+        for i, (c, start) in enumerate(todo):
+            o = outs[i]
+            r = res[id(c)]
+            n = len(r)
+            if o.get("timeout"):
+                # the events of a hung chunk are lost: isolate the first call, then go on with the others
+                single = run_lua_cases(drv, [{"id": 0, "src": PRELUDE + "local s, p = %s, %s\nemit(%d, %s)\n" % (
+                    lua_str(text(c[S_])), lua_str(text(c[P_])), start, call_expr(bat.of(c)[start])), "timeout": 10000}], nproc=1)[0]
+                if single.get("timeout"):
+                    r[start] = "HANG"
+                elif single.get("panic") or single.get("crash"):
+                    r[start] = "PANIC"
+                else:
+                    r[start] = single["events"][0][1]["s"]
+                if start + 1 < n:
+                    nxt.append((c, start + 1))
+                continue
+            j = start - 1
+            for e in o.get("events") or []:
+                j = int(e[0]["i"])
+                r[j] = e[1]["s"]
+            if o.get("panic") or o.get("crash"):
+                if j + 1 < n:
+                    r[j + 1] = "PANIC"
+                    if j + 2 < n:
+                        nxt.append((c, j + 2))
+            elif not o.get("ok"):
+                raise Infra("battery call chunk failed: %s" % (o.get("errstr") or json.dumps(o))[:600])
+        todo = nxt
+    return res
+
+
+def run_batch(drv, bat, cases, acc, corrupt):
+    """run the batteries of `cases` on the real library and compare; accumulates into acc"""
+    # the cases of one pattern arrive together; spread them so that a pattern whose battery panics does not
+    # stop the same chunk over and over
+    order = list(cases)
+    random.Random(seed()).shuffle(order)
+    pending = [order[i:i + CHUNK] for i in range(0, len(order), CHUNK)]
+    got = {}          # id(case) -> joined string | list of parts (detailed)
+    rounds = 0
+    while pending:
+        rounds += 1
+        if rounds > 100:
+            raise Infra("too many re-runs of pattern chunks")
+        outs = run_chunks(drv, bat, pending)
+        nxt = []
+        culprits = []
+        for ch, o in zip(pending, outs):
+            evs = o.get("events") or []
+            for e in evs:
+                got[id(ch[int(e[0]["i"])])] = e[1]["s"] if isinstance(e[1], dict) and "s" in e[1] else None
+            done = len(evs)
+            if o.get("timeout"):
+                culprits.extend(ch)      # events are lost with a hung chunk: run its cases one by one
+            elif o.get("panic") or o.get("crash"):
+                if done < len(ch):
+                    culprits.append(ch[done])
+                    acc["panics"] += 1
+                    if done + 1 < len(ch):
+                        nxt.append(ch[done + 1:])
+            elif not o.get("ok"):
+                raise Infra("battery chunk failed: %s" % (o.get("errstr") or json.dumps(o))[:600])
+            elif done != len(ch):
+                raise Infra("battery chunk lost events: %d of %d" % (done, len(ch)))
+        if culprits:
+            got.update(detailed(drv, bat, culprits))
+        pending = nxt
+    for c in cases:
+        calls = bat.of(c)
+        exp = expected_parts(c, calls)
+        if corrupt and c[ST] == 0 and text(c[P_]) == corrupt[0] and text(c[S_]) == corrupt[1]:
+            exp[0] = "#9,#9"       # deliberately wrong expectation (binding self-test)
+        g = got.get(id(c))
+        acc["n"] += 1
+        if g is None:
+            raise Infra("no result for case %r" % (c,))
+        parts = g if isinstance(g, list) else g.split("|")
+        if len(parts) != len(exp):
+            raise Infra("battery result has %d parts, expected %d: %r" % (len(parts), len(exp), g))
+        anch = bool(c[P_]) and c[P_][0] == 94
+        for d, e, a in zip(calls, exp, parts):
+            if e is None:
+                acc["nd"] += 1
+                if a not in ("PANIC", "HANG"):
+                    continue
+                e = "(not determined)"
+            acc["calls"] += 1
+            if a != e:
+                sig = classify(c, d, e, a, anch, bat.bad)
+                key = json.dumps(sig, sort_keys=True)
+                lua = "return " + call_text(d, c[S_], c[P_])
+                it = acc["bad"].get(key)
+                if it is None or len(lua) < len(it[2]["lua"]):
+                    acc["bad"][key] = [sig, (it[1] if it else 0), {"cmd": "lua-run", "lua": lua, "pattern": text(c[P_]), "subject": text(c[S_]),
+                                                                 "expected": e, "observed": a, "parse": ST_NAME[c[ST]]}]
+                acc["bad"][key][1] += 1
+
+
+def shard_worker(args):
+    """one TLC process (one share of the patterns) and the replay of its cases; runs in a process of its own because
+    decoding and comparing a few hundred thousand cases is CPU-bound Python"""
+    cfg, sim, depth, k, shards, drv, corrupt = args
+    bat = Battery()
+    buf = []
+    acc = dict(n=0, calls=0, nd=0, panics=0, bad={}, ok=0, malformed=0, undet=0, nonstrict=0, with_match=0, with_caps=0, anchored=0,
+               samples=[], tokens={})
+
+    def on_line(v):
+        if isinstance(v, dict):
+            bat.add(v)
+            return
+        s = v[ST]
+        if s == 0:
+            acc["ok"] += 1
+            if v[F_][0]:
+                acc["with_match"] += 1
+            if v[NC]:
+                acc["with_caps"] += 1
+            if v[P_] and v[P_][0] == 94:
+                acc["anchored"] += 1
+            if len(acc["samples"]) < 2 and len(v[S_]) >= 3 and v[NC] and v[F_][0] and len(v[P_]) >= 4:
+                acc["samples"].append({"pattern": text(v[P_]), "subject": text(v[S_]), "find": [x if isinstance(x, int) else text(x) for x in v[F_][0]],
+                                       "gsub": [text(v[G_][0][0]), v[G_][0][1]] if len(v[G_][0]) == 2 else v[G_][0]})
+        elif s == 1:
+            acc["malformed"] += 1
+        else:
+            acc["undet"] += 1
+        if not v[STRICT]:
+            acc["nonstrict"] += 1
+        buf.append(v)
+        if len(buf) >= BATCH:
+            run_batch(drv, bat, buf[:], acc, corrupt)
+            del buf[:]
+
+    t0 = time.time()
+    # TLC does not scale over workers on this spec (measured: 8 workers are no faster than 1), separate processes do
+    res = run_tlc("PatternMC", cfg, timeout=3400, on_line=on_line, simulate=sim, depth=depth, workers=1, heap="3g",
+                  consts={"Shard": k, "NShards": shards}, seed_=seed() + k, env={"JAVA_TOOL_OPTIONS": "-XX:ParallelGCThreads=2"})
+    if res.violation:
+        raise Infra("Pattern TLC run failed on %s: %s" % (cfg, res.violation))
+    if buf:
+        run_batch(drv, bat, buf[:], acc, corrupt)
+    acc.update(distinct=res.distinct, generated=res.generated, wall=round(time.time() - t0, 1))
+    return acc
 
 
 def run(prop, tier, only=None, corrupt=None, cpu=True):
@@ -172,229 +348,51 @@ def run(prop, tier, only=None, corrupt=None, cpu=True):
                cases_with_captures=0, cases_anchored=0, calls_not_determined=0, go_panics=0,
                reference_divergences_not_determined_by_manual={})
     drv = build_driver()
-    lock = threading.Lock()
-    NPROC = max(2, NCPU // 2)
-
-    def run_chunks(bat, chunks, timeout=20000):
-        """chunks: list of lists of cases.  Returns per chunk (events by case index, status)"""
-        pre = bat.prelude()
-        inputs = []
-        for ci, ch in enumerate(chunks):
-            src = pre + "\n".join("C(%d, %d, %s, %s)" % (i, c[FULL], lua_str(text(c[S_])), lua_str(text(c[P_]))) for i, c in enumerate(ch)) + "\n"
-            inputs.append({"id": ci, "src": src, "timeout": timeout, "maxev": len(ch) + 10})
-        outs = run_lua_cases(drv, inputs, nproc=NPROC, env=GOENV2)
-        return [outs[ci] for ci in range(len(chunks))]
-
-    def detailed(bat, culprits):
-        """culprits: cases whose battery stopped a chunk.  Each is run alone with one emit per call, so that the call
-        that panics is identified and the calls after it still get their result.  Returns {id(case): list of parts}"""
-        res = {id(c): [None] * len(bat.of(c)) for c in culprits}
-        todo = [(c, 0) for c in culprits]
-        guard = 0
-        while todo:
-            guard += 1
-            if guard > 80:
-                raise Infra("too many re-runs of a single battery")
-            inputs = []
-            for i, (c, start) in enumerate(todo):
-                calls = bat.of(c)
-                src = PRELUDE + "local s, p = %s, %s\n" % (lua_str(text(c[S_])), lua_str(text(c[P_]))) + "".join(
-                    "emit(%d, %s)\n" % (j, call_expr(calls[j])) for j in range(start, len(calls)))
-                inputs.append({"id": i, "src": src, "timeout": 10000})
-            outs = run_lua_cases(drv, inputs, nproc=NPROC, env=GOENV2)
-            nxt = []
-            for i, (c, start) in enumerate(todo):
-                o = outs[i]
-                r = res[id(c)]
-                n = len(r)
-                if o.get("timeout"):
-                    # the events of a hung chunk are lost: isolate call by call
-                    if n - start == 1:
-                        r[start] = "HANG"
-                    else:
-                        single = run_lua_cases(drv, [{"id": 0, "src": PRELUDE + "local s, p = %s, %s\nemit(%d, %s)\n" % (
-                            lua_str(text(c[S_])), lua_str(text(c[P_])), start, call_expr(bat.of(c)[start])), "timeout": 10000}], nproc=1)[0]
-                        if single.get("timeout"):
-                            r[start] = "HANG"
-                        elif single.get("panic") or single.get("crash"):
-                            r[start] = "PANIC"
-                        else:
-                            r[start] = single["events"][0][1]["s"]
-                        nxt.append((c, start + 1))
-                    continue
-                j = start - 1
-                for e in o.get("events") or []:
-                    j = int(e[0]["i"])
-                    r[j] = e[1]["s"]
-                if o.get("panic") or o.get("crash"):
-                    if j + 1 < n:
-                        r[j + 1] = "PANIC"
-                        if j + 2 < n:
-                            nxt.append((c, j + 2))
-                elif not o.get("ok"):
-                    raise Infra("battery call chunk failed: %s" % (o.get("errstr") or json.dumps(o))[:600])
-            todo = nxt
-        return res
-
-    def job(bat, cases):
-        """run and compare one batch; returns (counters, list of (sig, replay))"""
-        cnt = dict(n=0, calls=0, nd=0, panics=0)
-        bad = []
-        # the cases of one pattern arrive together; spread them so that a pattern whose battery panics does not
-        # stop the same chunk over and over
-        order = list(cases)
-        random.Random(seed()).shuffle(order)
-        pending = [order[i:i + CHUNK] for i in range(0, len(order), CHUNK)]
-        got = {}          # id(case) -> joined string | list of parts (detailed)
-        rounds = 0
-        while pending:
-            rounds += 1
-            if rounds > 60:
-                raise Infra("too many re-runs of pattern chunks")
-            outs = run_chunks(bat, pending)
-            nxt = []
-            culprits = []
-            for ch, o in zip(pending, outs):
-                evs = o.get("events") or []
-                for e in evs:
-                    k = int(e[0]["i"])
-                    got[id(ch[k])] = e[1]["s"] if isinstance(e[1], dict) and "s" in e[1] else None
-                done = len(evs)
-                if o.get("timeout"):
-                    # events are lost with a hung chunk: run its cases one by one
-                    culprits.extend(ch)
-                elif o.get("panic") or o.get("crash") or not o.get("ok"):
-                    if not (o.get("panic") or o.get("crash")):
-                        raise Infra("battery chunk failed: %s" % (o.get("errstr") or json.dumps(o))[:600])
-                    if done < len(ch):
-                        culprits.append(ch[done])
-                        cnt["panics"] += 1
-                        if done + 1 < len(ch):
-                            nxt.append(ch[done + 1:])
-                elif done != len(ch):
-                    raise Infra("battery chunk lost events: %d of %d" % (done, len(ch)))
-            if culprits:
-                got.update(detailed(bat, culprits))
-            pending = nxt
-        for c in cases:
-            calls = bat.of(c)
-            exp = expected_parts(c, calls)
-            if corrupt and c[ST] == 0 and text(c[P_]) == corrupt[0] and text(c[S_]) == corrupt[1]:
-                exp[0] = "#9,#9"       # deliberately wrong expectation (binding self-test)
-            g = got.get(id(c))
-            cnt["n"] += 1
-            if g is None:
-                raise Infra("no result for case %r" % (c,))
-            parts = g if isinstance(g, list) else g.split("|")
-            if len(parts) != len(exp):
-                raise Infra("battery result has %d parts, expected %d: %r" % (len(parts), len(exp), g))
-            anch = bool(c[P_]) and c[P_][0] == 94
-            for d, e, a in zip(calls, exp, parts):
-                if e is None:
-                    cnt["nd"] += 1
-                    if a in ("PANIC", "HANG"):
-                        pass
-                    else:
-                        continue
-                    e = "(not determined)"
-                cnt["calls"] += 1
-                if a != e:
-                    sig = classify(c, d, e, a, anch, bat.bad)
-                    bad.append((sig, {"cmd": "lua-run", "lua": "return " + call_text(d, c[S_], c[P_]), "pattern": text(c[P_]),
-                                      "subject": text(c[S_]), "expected": e, "observed": a, "parse": ST_NAME[c[ST]],
-                                      "strict": sig["strict"]}))
-        return cnt, bad
-
+    scratch()
     for cfg, sim, depth, shards in CONFIGS[tier]:
         if only and cfg not in only:
             continue
-        bat = Battery()
-        buf = []
-        futs = []
-        st = dict(n=0, bad=0, distinct=0, generated=0)
-        pool = cf.ThreadPoolExecutor(max_workers=2)
-
-        def collect(block):
-            while futs and (block or futs[0].done() or len(futs) > 3):
-                cnt, bad = futs.pop(0).result()
-                cov["traces_validated_against_impl"] += cnt["n"]
-                cov["calls_compared"] += cnt["calls"]
-                cov["calls_not_determined"] += cnt["nd"]
-                cov["go_panics"] += cnt["panics"]
-                for sig, replay in bad:
-                    if dump:
-                        dump.write(json.dumps({"sig": sig, "replay": replay}) + "\n")
-                    if not sig["strict"] and sig["why"] not in ("go-panic", "hang"):
-                        # the manual does not determine this call: the difference from the reference implementation is
-                        # recorded as an observation, it is not a violation
-                        key = json.dumps({k: v for k, v in sig.items() if k not in ("strict",)}, sort_keys=True)
-                        o = cov["reference_divergences_not_determined_by_manual"].setdefault(key, {"count": 0, "example": replay["lua"],
-                                                                                                 "reference": replay["expected"], "observed": replay["observed"]})
-                        o["count"] += 1
-                        continue
-                    st["bad"] += 1
-                    rep.violation(sig, replay)
-
-        def flush():
-            if buf:
-                futs.append(pool.submit(job, bat, buf[:]))
-                del buf[:]
-            collect(False)
-
-        def on_line(v):
-            with lock:
-                if isinstance(v, dict):
-                    bat.add(v)
-                    return
-                st["n"] += 1
-                s = v[ST]
-                if s == 0:
-                    cov["cases_ok"] += 1
-                    if v[F_][0]:
-                        cov["cases_with_match"] += 1
-                    if v[NC]:
-                        cov["cases_with_captures"] += 1
-                    if v[P_] and v[P_][0] == 94:
-                        cov["cases_anchored"] += 1
-                    if len(v[S_]) >= 3 and v[NC] and v[F_][0] and len(v[P_]) >= 4:
-                        rep.sample({"pattern": text(v[P_]), "subject": text(v[S_]), "find": v[F_][0], "gsub": v[G_][0]}, cap=3)
-                elif s == 1:
-                    cov["cases_malformed"] += 1
-                else:
-                    cov["cases_undetermined"] += 1
-                if not v[STRICT]:
-                    cov["cases_nonstrict"] += 1
-                buf.append(v)
-                if len(buf) >= BATCH:
-                    flush()
-
         t0 = time.time()
-
-        def shard(k):
-            # TLC does not scale over workers on this spec (measured: 8 workers are no faster than 1), separate
-            # processes do: every shard is a single-worker TLC run over its share of the patterns
-            return run_tlc("PatternMC", cfg, timeout=3400, on_line=on_line, simulate=sim, depth=depth, workers=1, heap="3g",
-                           consts={"Shard": k, "NShards": shards}, seed_=seed() + k,
-                           env={"JAVA_TOOL_OPTIONS": "-XX:ParallelGCThreads=2"})
-
-        with cf.ThreadPoolExecutor(max_workers=shards) as tp:
-            results = list(tp.map(shard, range(shards)))
-        for res in results:
-            if res.violation:
-                raise Infra("Pattern TLC run failed on %s: %s" % (cfg, res.violation))
-            st["distinct"] += res.distinct
-            st["generated"] += res.generated
-        t1 = time.time()
-        with lock:
-            flush()
-        collect(True)
-        pool.shutdown()
-        cov["states"] += st["distinct"]
-        cov["transitions"] += st["generated"]
-        cov["configs"].append({"cfg": cfg, "shards": shards, "distinct": st["distinct"], "generated": st["generated"], "cases": st["n"],
-                               "mismatching_calls": st["bad"], "tlc_s": round(t1 - t0, 1), "total_s": round(time.time() - t0, 1)})
-        log("[%s] %s: %d shards, %d cases, %d mismatching calls, tlc %.0fs total %.0fs"
-            % (prop, cfg, shards, st["n"], st["bad"], t1 - t0, time.time() - t0))
+        with cf.ProcessPoolExecutor(max_workers=shards) as pool:
+            results = list(pool.map(shard_worker, [(cfg, sim, depth, k, shards, drv, corrupt) for k in range(shards)]))
+        tot = dict(n=0, bad=0, distinct=0, generated=0)
+        for acc in results:
+            tot["n"] += acc["n"]
+            tot["distinct"] += acc["distinct"]
+            tot["generated"] += acc["generated"]
+            cov["traces_validated_against_impl"] += acc["n"]
+            cov["calls_compared"] += acc["calls"]
+            cov["calls_not_determined"] += acc["nd"]
+            cov["go_panics"] += acc["panics"]
+            cov["cases_ok"] += acc["ok"]
+            cov["cases_malformed"] += acc["malformed"]
+            cov["cases_undetermined"] += acc["undet"]
+            cov["cases_nonstrict"] += acc["nonstrict"]
+            cov["cases_with_match"] += acc["with_match"]
+            cov["cases_with_captures"] += acc["with_caps"]
+            cov["cases_anchored"] += acc["anchored"]
+            for x in acc["samples"]:
+                rep.sample(x, cap=4)
+            for key, (sig, count, replay) in sorted(acc["bad"].items()):
+                if dump:
+                    dump.write(json.dumps({"sig": sig, "count": count, "replay": replay}) + "\n")
+                if not sig["strict"] and sig["why"] not in ("go-panic", "hang"):
+                    # the manual does not determine this call: a difference from the reference implementation is
+                    # recorded as an observation, it is not a violation
+                    k2 = json.dumps({k: v for k, v in sig.items() if k != "strict"}, sort_keys=True)
+                    o = cov["reference_divergences_not_determined_by_manual"].setdefault(
+                        k2, {"count": 0, "example": replay["lua"], "reference": replay["expected"], "observed": replay["observed"]})
+                    o["count"] += count
+                    continue
+                tot["bad"] += count
+                for _ in range(count):
+                    rep.violation(sig, replay)
+        cov["states"] += tot["distinct"]
+        cov["transitions"] += tot["generated"]
+        cov["configs"].append({"cfg": cfg, "shards": shards, "distinct": tot["distinct"], "generated": tot["generated"], "cases": tot["n"],
+                               "mismatching_calls": tot["bad"], "shard_wall_s": [a["wall"] for a in results],
+                               "total_s": round(time.time() - t0, 1)})
+        log("[%s] %s: %d shards, %d cases, %d mismatching calls, %.0fs" % (prop, cfg, shards, tot["n"], tot["bad"], time.time() - t0))
     if dump:
         dump.close()
     if cpu:
@@ -403,6 +401,8 @@ def run(prop, tier, only=None, corrupt=None, cpu=True):
         "compared per call: error vs values, positions, captures, gsub result and count, the gmatch sequence; never message texts",
         "gmatch with a pattern starting with '^', %1 in a replacement for a pattern without captures, %x with x alphanumeric "
         "and not a class letter: not determined by the manual, only absence of a Go panic / hang is required",
+        "differences in calls whose result only the reference implementation fixes (flag strict = FALSE of the spec) are listed "
+        "under reference_divergences_not_determined_by_manual, they are not violations",
         "plain find (4th argument) belongs to C19",
     ]
     return rep.finish()
@@ -413,18 +413,52 @@ def run(prop, tier, only=None, corrupt=None, cpu=True):
 # must be stopped ("killed") under any limit L < U, well before doing U's worth of work.
 
 PATHOLOGICAL = [
-    ("lazy-chain", 'string.find(string.rep("a", 400), "a-a-a-a-a-b")'),
-    ("greedy-chain", 'string.find(string.rep("a", 300), ".*.*.*.*b")'),
-    ("optional-chain", 'string.find(string.rep("a", 26), string.rep("a?", 26) .. "b")'),
+    ("lazy-chain", 'string.find(string.rep("a", 40), "a-a-a-a-a-b")'),
+    ("greedy-chain", 'string.find(string.rep("a", 55), ".*.*.*.*b")'),
+    ("optional-chain", 'string.find(string.rep("a", 14), string.rep("a?", 14) .. "b")'),
     ("frontier-loop", 'string.gsub(string.rep("a b", 3000), "%f[%a]%a*%f[%A]x", "")'),
-    ("gmatch-backtrack", 'local n = 0 for w in string.gmatch(string.rep("a", 300), "a*a*a*c") do n = n + 1 end return n'),
-    ("gsub-backtrack", 'string.gsub(string.rep("ab", 150), "[ab]-[ab]-[ab]-c", "x")'),
-    ("balanced", 'string.find(string.rep("(", 3000), string.rep("%b()", 1))'),
+    ("gmatch-backtrack", 'local n = 0 for w in string.gmatch(string.rep("a", 90), "a*a*a*c") do n = n + 1 end return n'),
+    ("gsub-backtrack", 'string.gsub(string.rep("ab", 45), "[ab]-[ab]-[ab]-c", "x")'),
+    ("balanced", 'string.find(string.rep("(", 3000), "%b()")'),
     ("backref", 'string.find(string.rep("a", 200), "(a*)(a*)%2%1b")'),
 ]
 
 
+# A search that fails at every start offset still visits every offset: the charge has to grow with the subject.
+# (name, call with %d for the subject length); compared between a 1 KiB and a 1 MiB subject
+SCANS = [
+    ("find-scan", 'string.find(string.rep("a", %d), "b")'),
+    ("match-scan", 'string.match(string.rep("a", %d), "(b)c")'),
+    ("gsub-scan", 'string.gsub(string.rep("a", %d), "b", "x")'),
+    ("gmatch-scan", 'local n = 0 for w in string.gmatch(string.rep("a", %d), "b+") do n = n + 1 end return n'),
+]
+
+
+def scan_charge(rep, drv):
+    small, large = 1 << 10, 1 << 20
+    cases = []
+    for i, (name, src) in enumerate(SCANS):
+        for j, n in enumerate((small, large)):
+            body = src % n
+            cases.append({"id": 2 * i + j, "src": ("return " if not body.startswith("local") else "") + body, "cpu": 1 << 40, "timeout": 60000})
+    outs = run_lua_cases(drv, cases, nproc=4)
+    rep.cov["cpu_scan_cases"] = []
+    for i, (name, src) in enumerate(SCANS):
+        a, b = outs[2 * i], outs[2 * i + 1]
+        for o in (a, b):
+            if o.get("timeout") or o.get("panic") or o.get("crash") or not o.get("ok"):
+                raise Infra("cpu scan probe %s failed: %s" % (name, json.dumps(o)[:300]))
+        ua, ub = a.get("used_cpu", 0), b.get("used_cpu", 0)
+        rep.cov["cpu_scan_cases"].append({"case": name, "used_cpu_1KiB": ua, "used_cpu_1MiB": ub})
+        # a thousandth of a tick per additional start offset would pass
+        if ub - ua < (large - small) // 1000:
+            rep.violation({"fn": "cpu", "why": "scan-not-charged", "case": name},
+                          {"cmd": "lua-run", "src": cases[2 * i + 1]["src"], "cpu": 1 << 40, "used_cpu_1KiB_subject": ua, "used_cpu_1MiB_subject": ub,
+                           "why": "the search visits every start offset of the subject but the charge does not grow with its length"})
+
+
 def cpu_clause(rep, drv):
+    scan_charge(rep, drv)
     cov = rep.cov
     cov["cpu_cases"] = []
     big = 1 << 40
@@ -464,10 +498,8 @@ def cpu_clause(rep, drv):
         elif o.get("panic") or o.get("crash"):
             rep.violation({"fn": "cpu", "why": "go-panic", "case": name}, replay)
         elif o.get("status") != "killed":
+            # the call completed (or failed otherwise) although it needs more ticks than the limit allows
             rep.violation({"fn": "cpu", "why": "not-killed", "case": name}, replay)
-        elif o.get("used_cpu", 0) > 2 * L + 1000:
-            # stopped, but only after doing far more work than the limit allows
-            rep.violation({"fn": "cpu", "why": "overrun", "case": name}, replay)
     cov["cpu_limited_runs"] = len(lim)
 
 
